@@ -53,7 +53,8 @@ def read_input(text, ignore, with_h=False):
                 el = el[:1]
             if (el.upper() == "H" and not with_h) or r.resn in ignore:
                 continue
-            out.append({"m": model, "alt": r.alt, "key": [r.chain, r.num, r.icode], "resn": r.resn.strip(), "nm": r.name.strip()})
+            out.append({"m": model, "alt": r.alt, "key": [r.chain, r.num, r.icode], "resn": r.resn.strip(), "nm": r.name.strip(),
+                        "ish": 1 if el.upper() == "H" else 0})
     return out
 
 
@@ -81,8 +82,11 @@ def record(rr, text, ignore, with_h=False):
                 "ev6": observe.m6(g.energy_volume), "el6": observe.m6(g.energy_local), "dl": dl, "dv": dv, "label": g.label}
     for n in names:
         conf = mol.conformations[n]
+        # (with kept hydrogens: the supplied ones are atoms of the file; hydrogens the program builds in addition are not)
+        sup = {(x["key"][0], x["key"][1], x["key"][2], x["nm"]) for x in rec["inp"] if x.get("ish")}
         rec["atoms"][n] = [[[" " if a.chain_id == "_" else a.chain_id, a.res_num, a.icode or " "], a.name, a.res_name.strip()]
-                           for a in conf.atoms if a.element != "H" or with_h]
+                           for a in conf.atoms
+                           if a.element != "H" or (with_h and (" " if a.chain_id == "_" else a.chain_id, a.res_num, a.icode or " ", a.name) in sup)]
         rec["grp"][n] = [grec(g) for g in conf.groups if g.use_in_calculations()]
     rec["avr"] = [grec(g) for g in mol.conformations["AVR"].groups]
     return rec
@@ -278,6 +282,11 @@ def run(ctx):
         if nm in ("alt-rotamers-AB", "nterm-residue-altAB", "conf-alt-AB", "model2-missing-atoms") + (("4DFR", "alt-digits-12") if ctx.thorough() else ()):
             ht = c07.with_own_hydrogens(text)
             if ht:
+                # (not on residues that have alternate locations themselves: the hydrogens of location A do not fit the
+                # atoms of location B, which then - rightly - get hydrogens of their own)
+                altres = {C.resid(ln) for ln in text.splitlines() if C.is_atom(ln) and ln[16] != " "}
+                ht = "\n".join(ln for ln in ht.splitlines()
+                               if not (C.is_atom(ln) and ln[76:78].strip() == "H" and C.resid(ln) in altres)) + "\n"
                 keep.append((nm + " +own-hydrogens -k", ht))
     inputs = [(n_, t_, ["-q"]) for n_, t_ in inputs] + [(n_, t_, ["-q", "-k"]) for n_, t_ in keep]
     for name, text, ropts in inputs:
